@@ -103,6 +103,7 @@ type FuncContract struct {
 	AllowPanic  Expr
 	MapAccess   []*Clause // must hold at every map read/write in the function
 	At          map[string][]*Clause // kind (append, return, go) -> must hold at every such instruction
+	AtSets      map[string][]GhostSet // kind[#k] -> ghost updates at such instructions
 	AllocBound  Expr
 	Forbid      []ForbidRule
 	Sets        []GhostSet
@@ -659,6 +660,18 @@ func parseSpecFile(path string) (*SpecFile, error) {
 		case "at":
 			// at KIND requires label: E
 			f := strings.Fields(c.rest)
+			if len(f) >= 3 && f[1] == "set" {
+				// at KIND[#k] set g := E : ghost update performed at that instruction
+				gs, err := parseSet(strings.TrimSpace(strings.TrimPrefix(strings.TrimSpace(strings.TrimPrefix(c.rest, f[0])), "set")))
+				if err != nil {
+					return nil, fail(c, "%v", err)
+				}
+				if cur.AtSets == nil {
+					cur.AtSets = map[string][]GhostSet{}
+				}
+				cur.AtSets[f[0]] = append(cur.AtSets[f[0]], gs)
+				break
+			}
 			if len(f) < 3 || f[1] != "requires" {
 				return nil, fail(c, "at KIND requires ... expected")
 			}
